@@ -111,13 +111,30 @@ def _run_chunk(mode, cases, per_case_timeout):
         th.start()
         done = 0
         last = [time.time()]
+        cpu_mark = [0.0]
         hung = [False]
+        stalled = [False]
+
+        def child_cpu():
+            try:
+                with open("/proc/%d/stat" % p.pid) as fh:
+                    f = fh.read().rsplit(")", 1)[1].split()
+                return (int(f[11]) + int(f[12])) / float(os.sysconf("SC_CLK_TCK"))
+            except (OSError, IndexError, ValueError):
+                return None
 
         def watchdog():
+            # a hang is judged by the CPU time the child burns on one case (load on the machine cannot
+            # cause a false alarm); a very long wall-clock silence with an idle child is a tool problem
             while p.poll() is None:
                 time.sleep(0.5)
-                if time.time() - last[0] > per_case_timeout:
+                cpu = child_cpu()
+                if cpu is not None and cpu - cpu_mark[0] > per_case_timeout:
                     hung[0] = True
+                    p.kill()
+                    return
+                if time.time() - last[0] > max(600.0, 20 * per_case_timeout):
+                    stalled[0] = True
                     p.kill()
                     return
 
@@ -125,6 +142,9 @@ def _run_chunk(mode, cases, per_case_timeout):
         wd.start()
         for line in p.stdout:
             last[0] = time.time()
+            c = child_cpu()
+            if c is not None:
+                cpu_mark[0] = c
             try:
                 r = json.loads(line)
             except ValueError:
@@ -134,6 +154,8 @@ def _run_chunk(mode, cases, per_case_timeout):
             results[todo[done]["id"]] = r
             done += 1
         p.wait()
+        if stalled[0]:
+            raise ToolError("harness stalled without using CPU (driver problem, not a finding)")
         if done < len(todo):
             culprit = todo[done]
             if hung[0]:
@@ -307,6 +329,8 @@ class Report:
         for k in self.known:
             lab = k.get("label", "*")
             if lab != "*" and lab not in f.labels:
+                continue
+            if any(x not in f.labels for x in k.get("labels", [])):
                 continue
             if re.fullmatch(k.get("signature", ".*"), f.signature):
                 return k
